@@ -1362,7 +1362,7 @@ int32 matrixResumeSession(ssl_t *ssl)
     psGetTime(&accessTime, ssl->userPtr);
     if ((ssl->sessionIdLen != SSL_MAX_SESSION_ID_SIZE) ||
         (Memcmp(g_sessionTable[i].id, id, SSL_MAX_SESSION_ID_SIZE) != 0) ||
-        (psDiffMsecs(g_sessionTable[i].startTime,   accessTime, ssl->userPtr) >
+        ((uint32) psDiffMsecs(g_sessionTable[i].startTime,   accessTime, ssl->userPtr) >
                 SSL_SESSION_ENTRY_LIFE) || (g_sessionTable[i].majVer != psEncodeVersionMaj(GET_NGTD_VER(ssl)))
             || (g_sessionTable[i].minVer != psEncodeVersionMin(GET_NGTD_VER(ssl))))
     {
